@@ -49,7 +49,8 @@ REQUIRED_LABELS = {
     "quick": ["edge", "model", "aa", "tight", "very_tight", "exact_f32", "bias", "nobias",
               "k:dense", "k:conv1d", "k:conv2d", "k:dw2d", "kq:qb", "kq:po2",
               "kq:bin", "kq:ter", "kq:qb_auto_po2", "kq_max_value_not_po2",
-              "x:aligned", "lead_act",
+              "dw_depth_multiplier>1", "act:relu_1bit_int0", "act:relu_1bit_int1",
+              "act:relu_1bit_int2", "x:aligned", "lead_act",
               "aa:QDense", "aa:QConv2D", "aa:QConv1D", "aa:QDepthwiseConv2D"],
 }
 REQUIRED_LABELS["thorough"] = REQUIRED_LABELS["quick"] + ["inexact_f32"]
@@ -117,7 +118,9 @@ def ref_preact(l, x, w, b):
       if k == "conv2d":
         y = np.einsum("bhiwjc,ijco->bhwo", patches, w)
       else:
-        y = np.einsum("bhiwjc,ijc->bhwc", patches, w[..., 0])
+        # output channel c*dm + m reads input channel c
+        y = np.einsum("bhiwjc,ijcm->bhwcm", patches, w)
+        y = y.reshape(y.shape[:3] + (-1,))
   if b is not None:
     y = y + b
   return y
@@ -175,7 +178,7 @@ def make_inputs(case, first_idx, w_first):
   else:
     l = case["layers"][first_idx]
     w = w_first
-    nout = w.shape[-1] if l["k"] != "dw2d" else 1
+    nout = w.shape[-1]          # depthwise: one pattern per depth multiplier
     chans = list(range(min(nout, 6)))
     xs = []
     for c in chans:
@@ -201,7 +204,7 @@ def make_inputs(case, first_idx, w_first):
                 h = st[0] + i * l["dil"][0]
                 v = st[1] + j * l["dil"][1]
                 if 0 <= h < shape[0] and 0 <= v < shape[1]:
-                  wc = (w[i, j, :, c] if l["k"] == "conv2d" else w[i, j, :, 0]) * pol
+                  wc = w[i, j, :, c] * pol   # dw2d: c is the multiplier index
                   base[h, v, :] = np.where(wc > 0, kmax,
                                            np.where(wc < 0, kmin, base[h, v, :]))
         xs.append(base)
@@ -216,7 +219,8 @@ def make_inputs(case, first_idx, w_first):
 def _layer_sig(l, in_family, which):
   return {"layer": G.CLASS_OF[l["k"]], "kq": G.q_family(l["kq"]),
           "bq": G.q_family(l["bq"]) if l["bias"] else "none",
-          "input": in_family, "which": which}
+          "input": in_family, "which": which,
+          **({"depth_multiplier>1": True} if l.get("dm", 1) > 1 else {})}
 
 
 def oracle_model(ctx, case, stats):
@@ -279,11 +283,13 @@ def oracle_model(ctx, case, stats):
     xin = x if i == 0 else outs[i - 1]
     if l["k"] == "act":
       fam = "act:" + l["q"]["t"]
+      if l["q"]["t"] == "relu" and l["q"]["bits"] == 1:
+        fam = "act:relu_1bit"
       if r is None:
         raise core.HarnessError("layer %s missing from the qtools report" % name)
       for clause, _, text in T.violations(r["output_quantizer"], outs[i]):
         fails.append(("activation_type",
-                      {"clause": clause, "act": l["q"]["t"]},
+                      {"clause": clause, "act": fam[4:]},
                       "%s %r reported %s: %s" % (name, l["q"],
                                                  T.describe(r["output_quantizer"]), text)))
       prev_family = fam
@@ -363,6 +369,8 @@ def labels_model(case):
     if l["k"] in G.COMPUTE:
       labs += ["k:" + l["k"], "kq:" + G.q_family(l["kq"]), "w:" + l["wmode"],
                "bias" if l["bias"] else "nobias"]
+      if l.get("dm", 1) > 1:
+        labs.append("dw_depth_multiplier>1")
       mv = l["kq"].get("mv")
       if mv is not None and np.log2(mv) != np.round(np.log2(mv)):
         labs.append("kq_max_value_not_po2")
@@ -370,6 +378,8 @@ def labels_model(case):
         labs.append("bq:" + G.q_family(l["bq"]))
     elif l["k"] == "act":
       labs.append("act:" + l["q"]["t"])
+      if l["q"]["t"] == "relu" and l["q"]["bits"] == 1:
+        labs.append("act:relu_1bit_int%d" % l["q"]["int"])
   labs.append("depth:%d" % sum(1 for l in case["layers"] if l["k"] in G.COMPUTE))
   return sorted(set(labs), key=lambda s: (s != "model", s))
 
@@ -498,12 +508,18 @@ def case_strategy(quick):
       l.update(ks=ks, st=stv, dil=dil, pad=pad)
       if kind != "dw2d":
         l["filters"] = draw(st.integers(1, 4 if quick else 8))
+      else:
+        l["dm"] = draw(st.sampled_from([1, 1, 2, 3]))
     l["bias"] = draw(st.booleans())
     l["kq"] = draw(G.st_kernel_q(st, wide=not quick))
     if prev_act is not None and prev_act["t"] in ("bin", "ter") and \
         l["kq"]["t"] == "qb" and not G.is_auto(l["kq"]):
       # -1 x most-negative code is outside the domain (as min x min is)
       l["kq"] = dict(l["kq"], sym=1)
+    if l.get("dm", 1) > 1 and G.is_auto(l["kq"]):
+      # qtools documents depth_multiplier == 1 for auto_po2 depthwise kernels
+      # (assert in adjust_accumulator_for_auto_po2)
+      l["kq"] = dict(l["kq"], alpha=1.0)
     l["bq"] = draw(G.st_bias_q(st))
     l["wmode"] = draw(st.sampled_from(["random", "max", "min", "signed_max", "lsb"]))
     l["wseed"] = draw(st.integers(0, 2 ** 16))
@@ -538,6 +554,8 @@ def case_strategy(quick):
         src = {"t": "qb", "bits": 2 + extra, "int": 1, "sym": 1, "kn": 1,
                "alpha": None}
       elif lead["t"] == "relu":
+        if lead["bits"] == 1:
+          extra = 1
         src = {"t": "qb", "bits": lead["bits"] + 1 + extra, "int": lead["int"],
                "sym": 1, "kn": 1, "alpha": None}
       else:
@@ -630,7 +648,8 @@ def edge_cases(tier):
   qb = lambda b, i, s=1, a=None: {"t": "qb", "bits": b, "int": i, "sym": s,
                                   "kn": 1, "alpha": a}
   inputs = [None, {"t": "relu", "bits": 3, "int": 1}, qb(3, 1),
-            {"t": "bin"}, {"t": "ter"}, {"t": "relu", "bits": 2, "int": 0}]
+            {"t": "bin"}, {"t": "ter"}, {"t": "relu", "bits": 1, "int": 0},
+            {"t": "relu", "bits": 1, "int": 2}, {"t": "relu", "bits": 1, "int": 1}]
   kernels = [qb(3, 0, 0, 1.0), qb(4, 1, 1, 1.0), qb(4, 0, 0, "auto_po2"),
              {"t": "po2", "bits": 3, "mv": None}, {"t": "po2", "bits": 4, "mv": None},
              {"t": "po2", "bits": 4, "mv": 4.0}, {"t": "po2", "bits": 4, "mv": 1.0},
@@ -645,7 +664,12 @@ def edge_cases(tier):
       ("conv2d", [3, 3, 1], {"ks": [2, 2], "st": [1, 1], "dil": [1, 1], "pad": "valid",
                              "filters": 2}),
       ("dw2d", [3, 3, 2], {"ks": [2, 2], "st": [1, 1], "dil": [1, 1], "pad": "same"}),
+      ("dw2d", [3, 3, 2], {"ks": [2, 2], "st": [1, 1], "dil": [1, 1], "pad": "valid",
+                           "dm": 2}),
+      ("dw2d", [2, 3, 1], {"ks": [2, 2], "st": [1, 1], "dil": [1, 1], "pad": "same",
+                           "dm": 3}),
   ]
+  n_est = 4          # the estimator lattice uses the first four geometries
   out = []
   idx = 0
   for ii, lead in enumerate(inputs):
@@ -653,10 +677,13 @@ def edge_cases(tier):
       for ib, bq in enumerate(biases):
         for im, (wm, xm) in enumerate(modes):
           idx += 1
-          kinds = range(4) if tier != "quick" else [(ii + ik + ib + im) % 4]
+          kinds = (range(len(geos)) if tier != "quick"
+                   else [(ii + ik + ib + im) % len(geos)])
           for g in kinds:
             kind, in_shape, geo = geos[g]
             k2 = dict(kq)
+            if geo.get("dm", 1) > 1 and G.is_auto(k2):
+              k2["alpha"] = 1.0
             if lead is not None and lead["t"] in ("bin", "ter") and \
                 k2["t"] == "qb" and not G.is_auto(k2):
               k2["sym"] = 1
@@ -671,7 +698,8 @@ def edge_cases(tier):
               if lead["t"] in ("bin", "ter"):
                 case["src"] = qb(2, 1)
               elif lead["t"] == "relu":
-                case["src"] = qb(lead["bits"] + 1, lead["int"])
+                case["src"] = qb(lead["bits"] + (2 if lead["bits"] == 1 else 1),
+                                 lead["int"])
               else:
                 case["src"] = qb(lead["bits"], lead["int"])
               layers = [{"k": "act", "q": lead}]
@@ -679,7 +707,7 @@ def edge_cases(tier):
             case.update(xmode=xm, xseed=idx, batch=2)
             out.append(case)
   # estimator lattice
-  for g, (kind, in_shape, geo) in enumerate(geos):
+  for g, (kind, in_shape, geo) in enumerate(geos[:n_est]):
     for bias in (False, True):
       for rng in ([-8, 8], [0, 12], [-16, 4], [-2, 3]):
         for nout in (1, 3):
@@ -717,7 +745,7 @@ def run(ctx):
   st_model, st_aa = case_strategy(quick)
   # one interleaved stream (2 model cases : 1 estimator case) so that a run cut
   # short by the time budget has still covered both families
-  n = (1440 if quick else 32000) // ctx.n + 1
+  n = (1200 if quick else 32000) // ctx.n + 1
   strat = st.one_of(st_model, st_model, st_aa)
   core.hyp_run(ctx, strat, lambda c: oracle(ctx, c), n, name="c18")
 
